@@ -115,17 +115,25 @@ def gen_cases(rng, tier, scale):
         cases.append(rcase(f'e{k}', main, data, pre=pre, partials=parts, entry=rng.choice([0, 2]), kind='render', where=where, fkind=kind,
                            exp=(errtpl, line, col, reason), tags=[where, kind]))
     # compile errors: name given at registration and a position inside the source
-    bad = ['{{#if a}}x', 'a\n{{/if}}', '{{#if a}}\n x{{/each}}', 'é\r\n{{> }}', '{{#each a}}{{else}}{{else}}{{/each}}\n{{', '{{foo "unterminated}}', 'x{{#*inline}}']
+    bad = ['{{#if a}}x', 'a\n{{/if}}', '{{#if a}}\n x{{/each}}', 'é\r\n{{> }}', '{{#each a}}{{else}}{{else}}{{/each}}\n{{', '{{foo "unterminated}}', 'x{{#*inline}}',
+           'héllo\r\n{{#> layout}}\r\n  body\r\n  {{/layuot}}\r\n', '{{#if a}}\n  {{#*inline "row"}}\n    x\n  {{/row}}\n{{/if}}\n', '{{#> p}}{{#if a}}{{/p}}{{/if}}',
+           '{{#*inline "a"}}{{/inline}}{{#*inline "b"}}x{{/b}}', '{{#each a}}{{#> q}}{{/each}}{{/q}}', '{{h (a (b)}}', '{{h k=}}', "{{h 'x}}"]
     for k, b in enumerate(bad):
-        cases.append({'line': f'c{k} regs {x("nm")} {x(b)} ; regt {x("nm2")} 1 {x(b)} ; rt 4 {x(b)} {{}} -1', 'kind': 'compile', 'src': b,
-                      'tpl': b, 'tags': ['compile']})
+        nm, nm2 = ('pages/home', 'wid gets') if k % 2 else ('nm', 'nm2')
+        cases.append({'line': f'c{k} regs {x(nm)} {x(b)} ; regt {x(nm2)} 1 {x(b)} ; regp {x(nm2)} {x(b)} ; rt 4 {x(b)} {{}} -1', 'kind': 'compile', 'src': b,
+                      'names': [nm, nm2, nm2], 'tpl': b, 'tags': ['compile']})
     return cases
 
 def oracle(c, io, mo):
     if c['kind'] == 'compile':
         toks = io.split(' ')
         lines = c['src'].count('\n') + 1
-        for t in toks[:2]:
+        import hblib
+        got = hblib.TERR_NAMES.get(c['line'].split(' ', 1)[0])
+        want = [x(n) for n in c['names']]
+        if got != want:
+            return f'a compile error carries the name the template was registered under: expected {c["names"]!r}, got {got!r}'
+        for t in toks[:3]:
             p = t.split(':')
             if p[0] != 'terr':
                 return f'expected a template error, got {t}'
